@@ -168,6 +168,19 @@ func c13Run(c *core.Ctx) {
 			return true
 		})
 	}
+	// (A) scale family
+	for i, sp := range gen.Scale(c.Thorough()) {
+		if !c.Mine(int64(i)) || c.Tick() {
+			continue
+		}
+		c.Cur(sp.Name)
+		c.Inc("inputs")
+		kd, d, acc := c13Modes(sp.Src)
+		if acc {
+			c.Inc("accepted_programs")
+		}
+		viol("A", kd, core.Short(d, 600), sp.Src, "", 1000+len(sp.Src))
+	}
 	// (A,B,C) statement families with layouts
 	level, k := 1, 1
 	if c.Thorough() {
